@@ -205,6 +205,12 @@ static void add_attr(const char *attr_name, enum xcm_attr_type type,
 	return;
 
     struct ctl_proto_get_all_attr_cfm *cfm = data;
+
+    /* an attribute which the protocol cannot carry is left out */
+    if (strlen(attr_name) >= sizeof(cfm->attrs[0].name) ||
+	len > sizeof(cfm->attrs[0].any_value))
+	return;
+
     struct ctl_proto_attr *attr = &cfm->attrs[cfm->attrs_len];
 
     cfm->attrs_len++;
@@ -213,7 +219,6 @@ static void add_attr(const char *attr_name, enum xcm_attr_type type,
     strcpy(attr->name, attr_name);
     attr->value_type = type;
 
-    ut_assert(attr->value_len < sizeof(attr->any_value));
     memcpy(attr->any_value, value, len);
     attr->value_len = len;
 }
